@@ -42,19 +42,11 @@ func (f *Float) SubtractFromFloat(num uint) error {
 		return nil
 	}
 
-	nums := strings.Split(strValue, ".")
-
-	// Parse the integer part
-	intPart, err := strconv.ParseUint(nums[0], 10, 64)
-	if err != nil {
-		return err
-	}
-
-	// Subtract the uint value from the integer part
-	intPart -= uint64(num)
-
-	// Combine the modified integer part and the decimal part
-	resultStr := fmt.Sprintf("%d.%s", intPart, nums[1])
+	// Subtract and round to the number of decimals the value has, so
+	// that 4.4 - 1 gives 3.4 instead of 3.4000000000000004. It works
+	// for negative values and for values between 0 and 1 as well
+	decimals := len(strings.Split(strValue, ".")[1])
+	resultStr := strconv.FormatFloat(f.Value-float64(num), 'f', decimals, 64)
 
 	// Parse the result back to float64
 	result, err := strconv.ParseFloat(resultStr, 64)
